@@ -605,7 +605,10 @@ impl Compiler {
 
                 let pos_start_function = self.instructions.len();
 
+                // Loops surrounding the function definition are not visible from inside the function body
+                let saved_loop_contexts = std::mem::take(&mut self.loop_contexts);
                 self.compile_block_statement(body)?;
+                self.loop_contexts = saved_loop_contexts;
 
                 if self.last_instruction_is(OpCode::Pop) {
                     self.remove_last_instruction();
